@@ -128,7 +128,11 @@ def gen_case(rng, tier, g):
         nf = 5
     if rec.profile == 'containers':
         prof = 'containers'
-    if rec.profile == 'sorted':
+    if rec.profile == 'biggroups':
+        # (the rows are generated from the length, see _factory)
+        nf = 5
+        tables = [enc_table(gen_sorted_table(8, nf)) for _ in range(rec.nsrc)]
+    elif rec.profile == 'sorted':
         # endless sorted tables (key groups of 1, 2, 3 rows; the second one
         # holds every second row of the first)
         nf = 5
@@ -228,9 +232,16 @@ def _header_cost(stack):
     return need
 
 
-def _factory(total, poison, sorted_profile=False):
+def _factory(total, poison, sorted_profile=False, biggroups=False):
     def make(i, t, rec=None):
         n = len(t) - 1
+        if biggroups:
+            def big(j, nf=len(t[0])):
+                return [(j - 1) * 4 // max(total - 1, 1), 'r%07d' % j,
+                        j % 10, j % 4, 'e%d' % (j % 3)][:nf]
+            lt = LongTable(t[:1], total, big, mode='copy', name='s%d' % i)
+            lt.poison = poison
+            return lt
 
         def filler(j, t=t, n=n):
             if sorted_profile:
@@ -346,7 +357,8 @@ def _one_length(e, case, total, log, sb, poison):
     streamed = [i for i in range(rec.nsrc) if i not in rec.build]
 
     fac = _factory(total, poison if kind == 'map' else None,
-                   sorted_profile=rec.profile == 'sorted')
+                   sorted_profile=rec.profile == 'sorted',
+                   biggroups=rec.profile == 'biggroups')
 
     def table_factory(i, t):
         if i in rec.build:
